@@ -662,7 +662,8 @@ func (c *Conv) addBias(out, bias tensor.Tensor) (tensor.Tensor, error) {
 
 	biasShape[1] = bias.Shape()[0]
 
-	err := bias.Reshape(biasShape...)
+	// The bias is an input tensor (or a weight), so it may not be reshaped in place.
+	bias, err := reshapeCopy(bias, biasShape)
 	if err != nil {
 		return nil, err
 	}
